@@ -55,7 +55,8 @@ Definition flowfn_check (c : flowfn_case) : bool :=
 Definition flowfn_mismatches := mismatches flowfn_check.
 
 (* ------------------------------------------------------------------ connection level *)
-Definition cfg_of (sd : side) : cfg := mkCfg sd h2_client_settings_wakes h2_write_chunk.
+Definition cfg_of (sd : side) : cfg :=
+  mkCfg sd h2_client_settings_wakes h2_winupd_wakes_always h2_client_settings_validated h2_write_chunk.
 
 Definition zz_eqb (a b : Z * Z) : bool := (fst a =? fst b) && (snd a =? snd b).
 
